@@ -51,8 +51,11 @@ type FuncContract struct {
 	Flags     map[string]bool // pure, trusted, wrap64, maypanic, noinline, opaque, frame
 	Asserts   []AnchorAssert
 	FnSpecs   map[string]*FuncContract // param name -> contract of function-typed param
+	GhostClrs []MarkSpec               // `ghostclear @<anchor> name`
+	GhostSets []MarkSpec               // `ghostset @call:<glob> name`: ghost flag name becomes true after a matching call
 	Marks     []MarkSpec               // named program points (state snapshots) usable as at("label", e)
 	ErrProp   []string                 // callee substrings whose error must propagate
+	ErrPropNil bool                    // ... and the other results must be nil on that path (errprop-nil)
 	Props     []string
 	Results   []string // optional explicit result names
 	Params    []string // for trusted specs of external funcs: parameter names
@@ -378,6 +381,23 @@ func (cs *ContractSet) LoadContractFile(path, pkgPath string, repoStyle bool) er
 				return fail(err)
 			}
 			cur.Asserts = append(cur.Asserts, AnchorAssert{Anchor: anchor[1:], Clause: c})
+		case "ghostset", "ghostclear":
+			if cur == nil {
+				return fail(fmt.Errorf("%s outside func", word))
+			}
+			anchor, label := splitWord(rest)
+			if !strings.HasPrefix(anchor, "@") || label == "" {
+				return fail(fmt.Errorf("%s @<call|mapupdate|lookup>:<glob> <name>", word))
+			}
+			a := strings.TrimPrefix(anchor, "@")
+			if !strings.Contains(a, ":") {
+				return fail(fmt.Errorf("anchor needs a kind prefix (call:, mapupdate:, lookup:)"))
+			}
+			if word == "ghostset" {
+				cur.GhostSets = append(cur.GhostSets, MarkSpec{Glob: a, Label: label})
+			} else {
+				cur.GhostClrs = append(cur.GhostClrs, MarkSpec{Glob: a, Label: label})
+			}
 		case "mark":
 			if cur == nil {
 				return fail(fmt.Errorf("mark outside func"))
@@ -395,11 +415,14 @@ func (cs *ContractSet) LoadContractFile(path, pkgPath string, repoStyle bool) er
 				}
 			}
 			cur.Marks = append(cur.Marks, MarkSpec{Glob: g, N: n, Label: label})
-		case "errprop":
+		case "errprop", "errprop-nil":
 			if cur == nil {
 				return fail(fmt.Errorf("errprop outside func"))
 			}
 			cur.ErrProp = append(cur.ErrProp, strings.Fields(rest)...)
+			if word == "errprop-nil" {
+				cur.ErrPropNil = true
+			}
 		case "props":
 			if cur == nil {
 				return fail(fmt.Errorf("props outside func"))
@@ -410,7 +433,7 @@ func (cs *ContractSet) LoadContractFile(path, pkgPath string, repoStyle bool) er
 				return fail(fmt.Errorf("results outside func"))
 			}
 			target.Results = strings.Fields(strings.ReplaceAll(rest, ",", " "))
-		case "pure", "trusted", "maypanic", "noinline", "opaque", "frame", "nopanic", "readsheap", "nonnil", "fresh", "noeffect", "nilsafe", "inline", "deterministic":
+		case "pure", "trusted", "maypanic", "noinline", "opaque", "frame", "nopanic", "readsheap", "nonnil", "fresh", "noeffect", "nilsafe", "inline", "deterministic", "reveal", "perwrite":
 			if target == nil {
 				return fail(fmt.Errorf("%s outside func", word))
 			}
